@@ -31,7 +31,7 @@ import (
 	"github.com/dolthub/dolt/go/zzverif/vsql"
 )
 
-const c35Rule = "one server per test; per case a file remote (file:// URL under the scratch dir), an author database `a` (table t, 3-5 rows, optionally 200 bulk rows, pushed as main) and two databases `b`, `c` made by dolt_clone; then 10-16 drawn operations by a drawn actor: commit (a fresh row or a new table) on main/b1/b2, tag, dolt_push [--force] of a branch, push of a tag, deletion of a remote branch (push origin :b), dolt_fetch, dolt_pull (fast-forward, up-to-date or merge of disjoint rows), race (two actors pull the same branch, both commit, both push without --force in a drawn order), a fresh dolt_clone into a new database, dolt_backup add+sync (optionally over a dirty working set) followed by dolt_backup restore. Model: remote branch/tag -> hash, updated only by operations that must succeed; a non-force push must succeed iff the remote branch is absent, equal to, or an ancestor (by dolt_log at the pusher) of the pushed head, otherwise it must fail and leave every remote ref as it was. Oracle after every transfer: the remote's datasets (opened in process from its directory, no cache) equal the model; destination refs (remote-tracking refs after fetch/pull/clone, the local branch after pull: == remote head on fast-forward, a commit with both heads as ancestors on merge) have the predicted hashes; every ref of the destination database renders (hash, dolt_log, tables, schemas, rows AS OF) exactly like the record taken where that commit was created; closure walk (types.WalkAddrsFromNomsValue from every dataset head) over the destination chunk store (remote directory, clone, backup directory) finds every address; a backup's root hash equals the source's and the restored database's vsql.Fingerprint equals the source's; of two racing pushes exactly the first succeeds. Non-trivial (DESIGN): at least two successful data-carrying transfers into a destination that already held part of the data, at least two distinct branches or tags transferred, and at least one rejected push, forced push, merge pull or remote branch deletion; distinct by operation list."
+const c35Rule = "one server per test; per case a file remote (file:// URL under the scratch dir), an author database `a` (table t, 3-5 rows, optionally 200 bulk rows, and table big(pk, who, doc TEXT, bin BLOB, js JSON) with 1-2 rows, pushed as main) and two databases `b`, `c` made by dolt_clone; then 10-16 drawn operations by a drawn actor: commit (a fresh row of t, in 2 of 3 commits instead a fresh row of big whose TEXT / BLOB / JSON cells are drawn from the size classes inline (1-300 bytes), around the 2048-byte inline/out-of-line threshold, out of line (2.5-7 KB) and multi-chunk (12-24 KB), optionally rewriting a wide cell of an older row of the same author; or a new table) on main/b1/b2, tag, dolt_push [--force] of a branch, push of a tag, deletion of a remote branch (push origin :b), dolt_fetch, dolt_pull (fast-forward, up-to-date or merge of disjoint rows), race (two actors pull the same branch, both commit, both push without --force in a drawn order), a fresh dolt_clone into a new database, dolt_backup add+sync (optionally over a dirty working set) followed by dolt_backup restore. Model: remote branch/tag -> hash, updated only by operations that must succeed; a non-force push must succeed iff the remote branch is absent, equal to, or an ancestor (by dolt_log at the pusher) of the pushed head, otherwise it must fail and leave every remote ref as it was. Oracle after every transfer: the remote's datasets (opened in process from its directory, no cache) equal the model; destination refs (remote-tracking refs after fetch/pull/clone, the local branch after pull: == remote head on fast-forward, a commit with both heads as ancestors on merge) have the predicted hashes; every ref of the destination database renders (hash, dolt_log, tables, schemas, all rows AS OF incl. the wide cells, i.e. they are read back through SQL at the destination) exactly like the record taken where that commit was created; closure walk (types.WalkAddrsFromNomsValue from every dataset head) over the destination chunk store (remote directory, clone, backup directory) finds every address; a backup's root hash equals the source's and the restored database's vsql.Fingerprint equals the source's; of two racing pushes exactly the first succeeds. Non-trivial (DESIGN): at least two successful data-carrying transfers into a destination that already held part of the data, at least two distinct branches or tags transferred, and at least one rejected push, forced push, merge pull or remote branch deletion; distinct by operation list."
 
 var c35Assumptions = []string{
 	"file remotes only (the HTTP remote backend and real multi-process pushers are not covered by this part)",
@@ -69,6 +69,7 @@ type c35Case struct {
 	xferIntoNonEmpty int
 	refsMoved        map[string]bool
 	special          map[string]bool
+	wide             map[string]bool // size classes of TEXT / BLOB / JSON cells that were committed
 }
 
 func (c *c35Case) fatalf(format string, args ...any) {
@@ -328,6 +329,20 @@ func (c *c35Case) commitOn(a *c35Actor, branch string, newTable bool) string {
 		c.nextName++
 		c.x(a.se, fmt.Sprintf("CREATE TABLE x%d_%s (pk INT PRIMARY KEY, note VARCHAR(40))", c.nextName, a.name))
 		c.x(a.se, fmt.Sprintf("INSERT INTO x%d_%s VALUES (1, 'made by %s')", c.nextName, a.name, a.name))
+	} else if lbl := fmt.Sprintf("commit%d", len(c.log)); rapid.IntRange(0, 2).Draw(c.rt, lbl+"_wide_row") > 0 {
+		// a row with TEXT / BLOB / JSON cells around the inline / out-of-line threshold, optionally together
+		// with a rewrite of a wide cell of an older row of the same author (nobody else touches that row)
+		c.nextPK++
+		row, classes := gcBigRow(c.rt, lbl, c.nextPK, a.name)
+		c.x(a.se, "INSERT INTO big VALUES "+row)
+		for _, cl := range classes {
+			c.wide[cl] = true
+		}
+		if rapid.Bool().Draw(c.rt, lbl+"_rewrite_older") {
+			n, cl := gcBigSize(c.rt, lbl+"_rewrite")
+			c.x(a.se, fmt.Sprintf("UPDATE big SET doc = '%s' WHERE who = '%s' AND pk < %d ORDER BY pk LIMIT 1", gcBigString(c.nextPK*4+1, n)+"-rewritten", a.name, c.nextPK))
+			c.wide["rewrite:"+cl] = true
+		}
 	} else {
 		c.nextPK++
 		c.x(a.se, fmt.Sprintf("INSERT INTO t VALUES (%d, '%s', %d, '%s')", c.nextPK, a.name, c.nextPK*3, strings.Repeat(fmt.Sprintf("%s%d.", a.name, c.nextPK), 10)))
@@ -525,7 +540,7 @@ func TestVerif_C35(t *testing.T) {
 
 func c35Run(rt *rapid.T, srv *vsql.Server, admin *vsql.Session, scratch string, rec *vh.Recorder) {
 	c := &c35Case{rt: rt, srv: srv, admin: admin, scratch: scratch, rBranch: map[string]string{}, rTag: map[string]string{},
-		record: map[string][]string{}, refsMoved: map[string]bool{}, special: map[string]bool{}, nextPK: 100}
+		record: map[string][]string{}, refsMoved: map[string]bool{}, special: map[string]bool{}, wide: map[string]bool{}, nextPK: 100}
 	adb := srv.NewDBName()
 	c.dbs = append(c.dbs, adb)
 	c.remoteDir = filepath.Join(scratch, adb+"-remote")
@@ -552,6 +567,15 @@ func c35Run(rt *rapid.T, srv *vsql.Server, admin *vsql.Session, scratch string, 
 		vals = append(vals, fmt.Sprintf("(%d, 'bulk', %d, '%s')", 10000+i, i, strings.Repeat(fmt.Sprintf("k%d/", i), 14)))
 	}
 	c.x(a.se, "INSERT INTO t VALUES "+strings.Join(vals, ", "))
+	c.x(a.se, gcBigTableDDL)
+	for i := 0; i < rapid.IntRange(1, 2).Draw(rt, "init_wide_rows"); i++ {
+		c.nextPK++
+		row, classes := gcBigRow(rt, fmt.Sprintf("init_wide%d", i), c.nextPK, "a")
+		c.x(a.se, "INSERT INTO big VALUES "+row)
+		for _, cl := range classes {
+			c.wide[cl] = true
+		}
+	}
 	c.x(a.se, "CALL dolt_commit('-Am', 'init')")
 	c.remember(a.se, c.refHash(a.se, "branch", "main"))
 	if rapid.Bool().Draw(rt, "second_commit_before_push") {
@@ -791,6 +815,17 @@ func c35Run(rt *rapid.T, srv *vsql.Server, admin *vsql.Session, scratch string, 
 	classes = append(classes, fmt.Sprintf("refs_moved=%d", len(c.refsMoved)), fmt.Sprintf("incremental_transfers=%d", min(c.xferIntoNonEmpty, 6)))
 	if bulk > 0 {
 		classes = append(classes, "bulk")
+	}
+	outOfLine := false
+	for cl := range c.wide {
+		classes = append(classes, "wide:"+cl)
+		if strings.HasSuffix(cl, "out_of_line") || strings.HasSuffix(cl, "multi_chunk") {
+			outOfLine = true
+		}
+	}
+	sort.Strings(classes)
+	if outOfLine {
+		classes = append(classes, "history_has_out_of_line_values")
 	}
 	nontrivial := c.xferIntoNonEmpty >= 2 && len(c.refsMoved) >= 2 && nSpecial >= 1
 	rec.Case(fmt.Sprintf("init=%d bulk=%d ops=[%s]", nInit, bulk, strings.Join(c.ops, "; ")), nontrivial, classes...)
